@@ -7,6 +7,7 @@ import (
 	"unicode/utf8"
 
 	"src.elv.sh/pkg/eval"
+	"src.elv.sh/pkg/eval/errs"
 	"src.elv.sh/pkg/eval/vals"
 	"src.elv.sh/pkg/getopt"
 	"src.elv.sh/pkg/parse"
@@ -25,6 +26,11 @@ func completeGetopt(fm *eval.Frame, vArgs, vOpts, vArgHandlers any) error {
 	argHandlers, variadic, err := parseGetoptArgHandlers(vArgHandlers)
 	if err != nil {
 		return err
+	}
+
+	if len(args) == 0 {
+		// The last argument is the one being completed; there must be one.
+		return errs.BadValue{What: "arguments", Valid: "non-empty list", Actual: "[]"}
 	}
 
 	// TODO: Make the Config field configurable
@@ -63,7 +69,7 @@ func completeGetopt(fm *eval.Frame, vArgs, vOpts, vArgHandlers any) error {
 		var argHandler eval.Callable
 		if len(parsedArgs) < len(argHandlers) {
 			argHandler = argHandlers[len(parsedArgs)]
-		} else if variadic {
+		} else if variadic && len(argHandlers) > 0 {
 			argHandler = argHandlers[len(argHandlers)-1]
 		}
 		if argHandler != nil {
